@@ -293,6 +293,15 @@ impl Ranges {
         };
 
         ranges.deserialize_inner(seq, parsed_value_seed)?;
+        // `["u8"]`: a type but no branch
+        let mut is_empty = true;
+        let _ = ranges.try_for_each_value::<_, ()>(|_| {
+            is_empty = false;
+            Ok(())
+        });
+        if is_empty {
+            return Err(serde::de::Error::custom(Error::EmptyRange));
+        }
         Ok(ranges)
     }
 
